@@ -131,7 +131,7 @@ class Run:
             shutil.rmtree(d, ignore_errors=True)
 
     # ------------------------------------------------------------------ conformance
-    def validate(self, trace_module, payload, items, sig_fn=None, workers=1, timeout=3600, heap="6g"):
+    def validate(self, trace_module, payload, items, sig_fn=None, workers=1, timeout=1200, heap="6g"):
         """Have TLC judge a batch of implementation observations.
 
         payload: JSON value written to TRACE_FILE; items: list parallel to what the spec's tag
